@@ -5,6 +5,7 @@ import FractopoModel.Generated.IsAzimuthClose
 import FractopoModel.Generated.DefaultAzimuthSets
 import FractopoModel.Generated.CalcBins
 import FractopoModel.Spec.Azimuth
+import FractopoModel.Generated.NetworkInit
 /-!
 # C15 — azimuths, set membership, rose bins
 
@@ -234,5 +235,21 @@ theorem C15_locs (n : Int) (hn : 0 < n) :
     rfl
 
 example : (containing 30 true ["a", "b"] [(160, 40), (50, 100)]).length ≤ 1 := by decide +kernel
+
+/-- **Set membership is computed per Network.** In the regenerated `Network.__post_init__` the frame into which a Network writes its azimuth and
+azimuth-set columns is a function of the COPY of the caller's frame only; the caller's frame never receives them, so a second Network with other set
+ranges on the same caller's frame computes its own sets. (History stream S15-network observes exactly this.) -/
+theorem C15_network_sets_from_a_copy {G' A' : Type} (area_is_empty : A' → Bool) (copy_ : List G' → List G') (has_z : List G' → Bool) (drop_z : List G' → List G')
+    (crop_ : List G' → A' → Bool → List G') (given : Bool) (traces traces' : List G') (area : A') (truncate circular topo rz : Bool)
+    (h : copy_ traces = copy_ traces') :
+    Gen.network_init area_is_empty copy_ has_z drop_z crop_ given traces area truncate circular topo rz () () =
+      Gen.network_init area_is_empty copy_ has_z drop_z crop_ given traces' area truncate circular topo rz () () := by
+  unfold Gen.network_init
+  simp only [h]
+
+/-- the hypothesis is met by two different caller frames with the same copy, and the frame the Network keeps is then the same -/
+example : Gen.network_init (fun (_ : Unit) => false) (fun (l : List Nat) => l.map (· % 10)) (fun _ => false) id (fun l _ _ => l) true [11, 22] () false false false false () ()
+    = Gen.network_init (fun (_ : Unit) => false) (fun (l : List Nat) => l.map (· % 10)) (fun _ => false) id (fun l _ _ => l) true [1, 2] () false false false false () () := by decide
+
 
 end C15
